@@ -99,6 +99,7 @@ func (f *File) Write(p []byte) (int, error) {
 	f.written += n
 	if f.role == roleOut && f != Stdout {
 		w.Files[f.name] = f.data
+		touch(f.name)
 	}
 	return n, err
 }
